@@ -32,7 +32,7 @@ func TestVerif_C01_RoundTrip(t *testing.T) {
 		var id, msg, za []byte
 		if entry != "hashed" {
 			id = gen.RandBytes(r0, gen.Int(t, "idlen", 0, 64))
-			msg = gen.RandBytes(r0, gen.Int(t, "msglen", 0, 200))
+			msg = gen.RandBytes(r0, gen.Len(t, "msglen", 9000))
 			za = gen.RandBytes(r0, 32)
 		}
 		rd := newStream(c.Stream)
